@@ -264,7 +264,12 @@ def render(obj, ospec, req, conf_dict, live_conf=None, observe=None):
                 data = obj(tuple(ospec['recs'][ospec['rec_index']]), **kw)
                 for col in data.columns:
                     col += " #"
-            res = obj(tuple(ospec['recs'][ospec['rec_index']]), **kw).ch_text()
+            data = obj(tuple(ospec['recs'][ospec['rec_index']]), **kw)
+            if req.get('touch_columns'):
+                # ... and the caller takes the text of the record, puts a mark behind it and takes the text again
+                first = data.ch_text()
+                first += " <-"
+            res = data.ch_text()
         else:
             res = obj.ch_text(**kw)
         if observe is not None:
